@@ -294,11 +294,12 @@ type nodeAPIResult struct {
 // exerciseNodes parses src afresh (Format mutates nodes) and calls the exported API of every node.
 // strict: the program has no comment and declares something everywhere, so Format() of each node
 // must carry exactly the node's tokens.
-func exerciseNodes(src []byte, strict bool) (res nodeAPIResult, cr *crash, hg *hang) {
+func exerciseNodes(src []byte, strict bool) (nodeAPIResult, *crash, *hang) {
+	var res nodeAPIResult // written by the guarded goroutine only
 	res.typesSeen = map[string]int{}
 	recordInput(src)
 	current := ""
-	cr, hg = guarded(func() {
+	cr, hg := guarded(func() {
 		p := parser.New("", src)
 		a := p.Parse()
 		if p.CheckErrors() != nil || a == nil {
@@ -359,10 +360,13 @@ func exerciseNodes(src []byte, strict bool) (res nodeAPIResult, cr *crash, hg *h
 		a.FormatForUnitTest(io.Discard)
 		res.methods++
 	})
+	if hg != nil && hg.waited > patience {
+		return nodeAPIResult{}, cr, hg
+	}
 	if cr != nil {
 		cr.msg = "while calling the methods of a " + current + " node: " + cr.msg
 	}
-	return
+	return res, cr, hg
 }
 
 // exerciseTokens calls every helper of token.Token on every token of src.
@@ -761,11 +765,13 @@ func runExtFamilies(t *testing.T) {
 			strict = len(comments) == 0 && !p.degenerate && !strings.Contains(src, "//") && !strings.Contains(src, "/*")
 		}
 		res, cr, hg := exerciseNodes([]byte(src), strict)
+		if hg != nil && hg.waited > patience {
+			// the goroutine is still running: its results must not be touched
+			viol(hangFinding(hg, "node-api", []byte(src)))
+			return
+		}
 		if cr != nil {
 			viol(crashFinding(cr, "calling the exported methods of AST nodes", []byte(src)))
-		}
-		if hg != nil && hg.waited > patience {
-			viol(hangFinding(hg, "node-api", []byte(src)))
 		}
 		for _, rf := range res.bad {
 			viol(rf)
